@@ -225,6 +225,32 @@ func init() {
 		},
 		"sort.Slice": sortSlice,
 
+		// ---- authentication / HTTP (C15) and credit service (C19): abstract events and uninterpreted predicates ----
+		"common/http.GetUserTokenFromHTTPRequest": func(x *Exec, st *State, a []Val, s ssa.Instruction) []Val {
+			x.assumeNote("A-token: GetUserTokenFromHTTPRequest (header, query string or cookie) is a pure function of the request; VerifyUserAuth(token) is a predicate of the token and the client's current secret (hagall-common and golang-jwt are assumed, not verified)")
+			r := x.uf("usertoken", []Sort{SInt}, SInt, a[0].T())
+			st.assume(Ge(r, TZero))
+			return []Val{{Typ: types.Typ[types.String], C: []Term{r}}}
+		},
+		"(*common/hdsclient.Client).VerifyUserAuth": func(x *Exec, st *State, a []Val, s ssa.Instruction) []Val {
+			ok := x.uf("authok", []Sort{SInt, SInt}, SBool, a[0].T(), a[1].T())
+			e := st.symbolic(x.eng.errorType, "autherr")
+			st.assume(Eq(Eq(e.T(), TZero), ok))
+			return []Val{e}
+		},
+		"(net/http.ResponseWriter).WriteHeader": func(x *Exec, st *State, a []Val, s ssa.Instruction) []Val {
+			st.addEvent(Event{Kind: "WriteHeader", Args: a})
+			return nil
+		},
+		"(net/http.HandlerFunc).ServeHTTP": func(x *Exec, st *State, a []Val, s ssa.Instruction) []Val {
+			st.addEvent(Event{Kind: "ServeHTTP", Args: a})
+			return nil
+		},
+		"(*common/ncsclient.NCSClient).PostReceipt": func(x *Exec, st *State, a []Val, s ssa.Instruction) []Val {
+			st.addEvent(Event{Kind: "PostReceipt", Args: a})
+			return []Val{st.symbolic(x.eng.errorType, "posterr")}
+		},
+
 		// ---- misc ----
 		"(github.com/google/uuid.UUID).String": func(x *Exec, st *State, a []Val, s ssa.Instruction) []Val {
 			return []Val{st.symbolic(types.Typ[types.String], "uuidstr")}
